@@ -226,4 +226,28 @@ fn interner_under_total_collision() {
             return;
         }
     }
+    // every word interned TWICE IN A ROW from the very first call on (the empty string first, too), under the colliding hasher
+    // and under the standard one: equal strings get equal keys, different strings different keys, keys count up from 1
+    fn immediate_duplicates<H: std::hash::BuildHasher + Default>(words: &[String], hasher_name: &str) -> bool {
+        use crate::collections::interner::Interner;
+        for rot in 0..words.len() {
+            let mut interner: Interner<std::num::NonZeroU32, H> = Default::default();
+            let mut keys: Vec<(String, std::num::NonZeroU32)> = vec![];
+            for i in 0..words.len() {
+                let w = &words[(i + rot) % words.len()];
+                for _ in 0..3 {
+                    let k = interner.get_or_intern(w);
+                    if keys.iter().any(|(w2, k2)| (w2 == w) != (*k2 == k)) || (!keys.iter().any(|(w2, _)| w2 == w) && k.get() as usize != keys.len() + 1) {
+                        println!("WITNESS {{\"fn\": \"get_or_intern\", \"unit_fns\": [\"get_or_intern\"], \"words\": \"{:?} as word number {} ({hasher_name} hasher, first word {:?})\", \"observed\": \"key {:?}; keys so far {:?}\", \"expected\": \"the key it already has, or the next unused key\"}}", w, i + 1, words[rot], k, keys.iter().map(|x| x.1.get()).collect::<Vec<_>>());
+                        return false;
+                    }
+                    if !keys.iter().any(|(w2, _)| w2 == w) { keys.push((w.clone(), k)); }
+                    if interner.resolve(k) != Some(w.as_str()) { println!("WITNESS {{\"fn\": \"resolve\", \"unit_fns\": [\"get_or_intern\", \"resolve\"], \"words\": \"{:?}\", \"observed\": \"{:?}\", \"expected\": \"the string\"}}", w, interner.resolve(k)); return false; }
+                }
+            }
+        }
+        true
+    }
+    if !immediate_duplicates::<std::hash::BuildHasherDefault<ConstHasher>>(&words, "constant") { return; }
+    if !immediate_duplicates::<std::collections::hash_map::RandomState>(&words, "standard") { return; }
 }
